@@ -27,7 +27,7 @@ func deferGuarded(d *ast.DeferStmt, cond, call string) bool {
 func mmapShape(root string) string {
 	f := parse(root, "pkg/sparse/matrix.go")
 	fd := findFunc(f, "CSMatrix", "Mmap")
-	var zeroEarly, rmDefer, closeDefer, unmapDefer, polls, repoints, caps, installAfter bool
+	var zeroEarly, rmDefer, closeDefer, unmapDefer, polls, repoints, caps, installAfter, fresh bool
 	var order []string
 	if fd != nil {
 		type ev struct {
@@ -78,6 +78,8 @@ func mmapShape(root string) string {
 				case l == "m.Entries" && r == "swapped":
 					evs = append(evs, ev{s.Pos(), "install"})
 					installAfter = loopEnd != 0 && s.Pos() > loopEnd
+				case l == "swapped":
+					fresh = r == "make([][]Entry,len(m.Entries),cap(m.Entries))" || r == "make([][]Entry,len(m.Entries))"
 				case l == "m.mapped" && r == "mapped":
 					evs = append(evs, ev{s.Pos(), "adopt"})
 				}
@@ -141,7 +143,7 @@ func mmapShape(root string) string {
 	return record("mmapShape", "MmapShape", []kv{
 		{"zeroNnzReturnsEarly", lb(zeroEarly)}, {"order", "[" + strings.Join(q, ", ") + "]"},
 		{"removesFileOnFailure", lb(rmDefer)}, {"closesFileOnFailure", lb(closeDefer)}, {"unmapsOnFailure", lb(unmapDefer)},
-		{"pollsCtxPerRow", lb(polls)}, {"repointsRows", lb(repoints)}, {"capsSpans", lb(caps)}, {"installsAfterCopy", lb(installAfter)},
+		{"pollsCtxPerRow", lb(polls)}, {"repointsRows", lb(repoints)}, {"tableIsFresh", lb(fresh)}, {"capsSpans", lb(caps)}, {"installsAfterCopy", lb(installAfter)},
 	})
 }
 
